@@ -176,7 +176,7 @@ fn op(u: &mut Unstructured) -> R<Op> {
         10 => Op::RemoveEntry { s, k: keysel(u)? },
         11 => Op::RemoveMany { s, n: 1 + n(u, 139)?, stride: u16_(u)? },
         12..=15 => Op::Entry { s, k: keysel(u)?, chain: chain(u)? },
-        16..=18 => Op::RawEntryMut { s, k: keysel(u)?, how: [RawHow::FromKey, RawHow::FromKeyHashedNocheck, RawHow::FromHash][n(u, 2)? as usize], chain: chain(u)? },
+        16..=18 => Op::RawEntryMut { s, k: keysel(u)?, how: [RawHow::FromKey, RawHow::FromKeyHashedNocheck, RawHow::FromHash][n(u, 2)? as usize], chain: chain(u)?, probe_other: n(u, 5)? == 0 },
         19 => Op::Iterate { s, kind: [IterKind::Iter, IterKind::Keys, IterKind::Values, IterKind::RefIntoIter][n(u, 3)? as usize], clone_at: take(u)?, extra: n(u, 3)? as u8, write: None },
         20 => Op::Iterate { s, kind: [IterKind::IterMut, IterKind::ValuesMut, IterKind::MutIntoIter][n(u, 2)? as usize], clone_at: None, extra: n(u, 3)? as u8, write: optw(u)? },
         21 => Op::Drain { s, take: take(u)?, forget: n(u, 3)? == 0 },
